@@ -27,6 +27,7 @@ pub struct Flat {
 struct Cx<'a> {
     rules: &'a serde_json::Map<String, Value>,
     inline: Vec<String>,
+    externals: Vec<String>,
     supertypes: Vec<String>,
     lexical: HashMap<String, bool>,
     toks: Vec<(char, String)>,                 // visibility, name
@@ -96,7 +97,13 @@ impl<'a> Cx<'a> {
             }
             "SYMBOL" => {
                 let n = v["name"].as_str().unwrap_or("").to_string();
-                if !self.rules.contains_key(&n) { return Err(format!("external or unknown symbol {n}")); }
+                if !self.rules.contains_key(&n) {
+                    // an external token: a leaf like any other token
+                    if !self.externals.contains(&n) { return Err(format!("unknown symbol {n}")); }
+                    let vis = if n.starts_with('_') { 'h' } else { 'n' };
+                    let id = self.tok(format!("r:{n}"), vis, n);
+                    return Ok(vec![vec![StepR { sym: SymRef::Tok(id), field: None, alias: None }]]);
+                }
                 if self.rule_is_lexical(&n) {
                     let vis = if n.starts_with('_') { 'h' } else { 'n' };
                     let id = self.tok(format!("r:{n}"), vis, n);
@@ -172,7 +179,15 @@ impl<'a> Cx<'a> {
                         for p in ps.iter_mut() { for s in p.iter_mut() { stamp(s, &a); } }
                         Ok(ps)
                     }
-                    _ => Err("alias over a compound rule".into()),
+                    _ => {
+                        // flatten_grammar keeps the alias on every step of the compound content
+                        let mut ps = self.expand(c)?;
+                        for p in ps.iter_mut() { for s in p.iter_mut() {
+                            if let SymRef::Rule(n) = &s.sym { if n.starts_with("_rep") { return Err("alias over a repeat".into()); } }
+                            stamp(s, &a);
+                        } }
+                        Ok(ps)
+                    }
                 }
             }
             "PREC" | "PREC_LEFT" | "PREC_RIGHT" | "PREC_DYNAMIC" | "RESERVED" => self.expand(&v["content"]),
@@ -190,10 +205,9 @@ fn stamp(s: &mut StepR, a: &(String, bool)) {
 
 pub fn flatten(grammar_json: &str) -> Result<Flat, String> {
     let g: Value = serde_json::from_str(grammar_json).map_err(|e| e.to_string())?;
-    if g["externals"].as_array().map(|a| !a.is_empty()).unwrap_or(false) { return Err("external tokens".into()); }
     let rules = g["rules"].as_object().ok_or("no rules")?;
     let names = |k: &str| -> Vec<String> { g[k].as_array().map(|a| a.iter().filter_map(|x| x.as_str().map(|s| s.to_string())).collect()).unwrap_or_default() };
-    let mut cx = Cx { rules, inline: names("inline"), supertypes: names("supertypes"), lexical: HashMap::new(), toks: vec![], tok_ids: HashMap::new(),
+    let mut cx = Cx { rules, inline: names("inline"), externals: g["externals"].as_array().map(|a| a.iter().filter_map(|x| x["name"].as_str().map(|s| s.to_string())).collect()).unwrap_or_default(), supertypes: names("supertypes"), lexical: HashMap::new(), toks: vec![], tok_ids: HashMap::new(),
                       aux: vec![], aux_memo: HashMap::new(), budget: 200_000, phantom: vec![] };
     // variables: the non-lexical rules in order
     let mut var_names: Vec<String> = Vec::new();
